@@ -167,7 +167,7 @@ not establish it is exactly the finding, see `Neg`):
 def okAt (st : St) (e : Ev) : Prop :=
   st.phase = .running →
   match e with
-  | .freeze => st.frozen = none → st.memMut ≠ [] →
+  | .freeze => st.frozen = none → (st.memMut ≠ [] ∨ st.foreignMem ≠ 0) →
       st.metric.pending = false ∧ st.tagv.pending = false ∧ st.index.pending = false
   | .indexPrepare => st.metric.pending = false ∧ st.tagv.pending = false
   | .applyWrite =>
@@ -298,13 +298,21 @@ theorem rinv_freeze {st : St} (hr : st.phase = .running) (hok : okAt st .freeze)
   unfold doFreeze
   split
   case h_2 => exact h
-  case h_1 r0 rs hfz hmm =>
-    obtain ⟨p1, p2, p3⟩ := hok hr hfz (by rw [hmm]; simp)
+  case h_1 hfz =>
+   split
+   case isTrue => exact h
+   case isFalse hne =>
+    have hne' : st.memMut ≠ [] ∨ st.foreignMem ≠ 0 := by
+      simp at hne
+      by_cases hm : st.memMut = []
+      · exact Or.inr (hne hm)
+      · exact Or.inl hm
+    obtain ⟨p1, p2, p3⟩ := hok hr hfz hne'
     obtain ⟨a, b, c, d, e, f⟩ := h
     constructor
     case frozen =>
       intro r hr'
-      have hr'' : r ∈ st.memMut := by rw [hmm]; simpa [frozenRows] using hr'
+      have hr'' : r ∈ st.memMut := by simpa [frozenRows] using hr'
       obtain ⟨k1, k2, k3⟩ := e r hr''
       exact ⟨Dict.known_dur_of_not_pending _ p1 _ k1, Dict.known_dur_of_not_pending _ p2 _ k2,
         Dict.known_dur_of_not_pending _ p3 _ k3⟩
@@ -541,6 +549,12 @@ theorem rinv_step (cfg : Cfg) {st : St} (e : Ev) (hok : okAt st e) (h : RInv st)
     · split
       · exact h
       · exact rinv_same h rfl rfl rfl rfl rfl rfl
+    · exact h
+  case foreignWrite m t =>
+    split
+    · apply rinv_addNames
+      obtain ⟨a, b, c, d, e, f⟩ := h
+      exact ⟨a, b, c, d, fun r hr => Or.inl (e r hr), f⟩
     · exact h
   case applyTake =>
     split
